@@ -188,6 +188,11 @@ mod verif_bodyw {
     verif_harness!(c07_t_chunkw_16, 70, { write_sequence(&[16], false) });
     verif_harness!(c07_t_chunkw_buf_5_2, 70, { write_sequence(&[5, 2], true) });
     verif_harness!(c07_t_chunkw_1_1_1_1, 70, { write_sequence(&[1, 1, 1, 1], false) });
+    // NOTE: a transport that accepts fewer bytes than offered (short writes) cannot be driven through
+    // ChunkedWriter here: the retry loops of write_all / write_fmt run on lengths that come out of
+    // core::fmt, which are not constant for the symbolic executor, and are unwound to the bound at
+    // every level (a 5-byte write over a 2-bytes-per-call sink did not finish in 400 s).
+
     verif_harness!(c07_qtwin_chunkw, 70, {
         write_sequence(&[1, 2], false);
         assert!(false, "twin: must be reported as FAILURE");
